@@ -195,13 +195,13 @@ def run_shift_cases(cases, res):
 
 def shard(shard, nshards, rng, tier, extra):
     res = Result()
-    run_cases([gen(rng) for _ in range((3000 if tier == 'quick' else 80000) // nshards)], res)
-    run_array_cases([gen_array(rng) for _ in range((1500 if tier == 'quick' else 40000) // nshards)], res)
-    indicator(rng, res, (400 if tier == 'quick' else 8000) // nshards)
+    run_cases([gen(rng) for _ in range((9000 if tier == 'quick' else 80000) // nshards)], res)
+    run_array_cases([gen_array(rng) for _ in range((4500 if tier == 'quick' else 40000) // nshards)], res)
+    indicator(rng, res, (1200 if tier == 'quick' else 8000) // nshards)
     # 2-D arrays of Python integers in C order, as transposed views and in Fortran order, both overflow modes: stored position by position
     import c03
-    c03.run_wide2d(c03.wide2d_cases(rng, (300 if tier == 'quick' else 8000) // nshards, omodes=('wrap', 'saturate')), res, pid='C18')
-    run_shift_cases(shift_cases(rng, (600 if tier == 'quick' else 15000) // nshards), res)
+    c03.run_wide2d(c03.wide2d_cases(rng, (900 if tier == 'quick' else 8000) // nshards, omodes=('wrap', 'saturate')), res, pid='C18')
+    run_shift_cases(shift_cases(rng, (1800 if tier == 'quick' else 15000) // nshards), res)
     return res
 
 def run(seed, tier):
